@@ -49,6 +49,27 @@ def history(ctx: Ctx, n_ops: int, hid: int) -> dict:
     kw = dict(server="dc01", username=USER, password=refdc.PASSWORD, auth_protocol="ntlm")
     import random as global_random
 
+    # wall clock of the host: real (most histories), frozen (two calls within one clock tick, a mocked clock), or coarse
+    # with occasional steps backwards (15.6 ms ticks, NTP corrections): freshness must not be derived from the clock
+    import contextlib
+    import time as _time
+
+    t0 = _time.time_ns()
+    ticks = {"n": 0}
+
+    def coarse() -> int:
+        ticks["n"] += 1
+        back = 2_000_000_000 if ticks["n"] % 97 == 0 else 0
+        return t0 + (ticks["n"] // 40) * 15_600_000 - back
+
+    clock_cm = (taps.global_clock(lambda: t0) if hid % 5 == 1 else taps.global_clock(coarse) if hid % 5 == 3 else contextlib.nullcontext())
+    with clock_cm:
+        return _history_ops(ctx, n_ops, hid, rng, dc, cache, rkid, h, alg, intern, events, blobs, pts, kw, global_random)
+
+
+def _history_ops(ctx, n_ops, hid, rng, dc, cache, rkid, h, alg, intern, events, blobs, pts, kw, global_random) -> dict:  # noqa
+    import dpapi_ng
+
     for k in range(n_ops):
         if hid % 3 == 0 and k % 4 == 0:
             global_random.seed(20231003)      # a host application reseeding the *global* PRNG is ordinary behaviour
